@@ -8,6 +8,7 @@ import Mathlib.Algebra.Order.Field.Basic
 import Mathlib.Algebra.BigOperators.Ring.Finset
 import Mathlib.Tactic.Linarith
 import Mathlib.Tactic.Ring
+import Mathlib.Algebra.Order.Ring.Abs
 import Mathlib.Logic.Relation
 /-!
 Lp: the mathematical side of C03/C04 – linear programs over `Fin m → Fin n → ℚ`, what the three
